@@ -7,12 +7,17 @@ import (
 	"fmt"
 	"log"
 	"net"
+	"os"
+	"runtime"
+	"strconv"
 	"strings"
 	"sync"
 	"time"
 
+	"raven/internal/db"
 	"raven/internal/delivery/lmtp"
 	"raven/internal/sasl"
+	"raven/internal/server/utils"
 )
 
 // C12: connections served by the REAL goroutine entry points of the LMTP and
@@ -80,6 +85,60 @@ func init() {
 			}
 		}
 		return Obs{"lines": out}
+	})
+	// seqset_calls: {"op":"seqset_calls","user":"u@example.com","mailbox":"INBOX","sets":[...],"uid":bool}
+	// direct calls of utils.ParseSequenceSetWithDB / ParseUIDSequenceSetWithDB against the store of
+	// this scenario, each under recover and timed -> {"rs":[{"n":len,"ms":..}|{"panic":..}]}
+	register("seqset_calls", func(w *World, op Op) Obs {
+		uid, err := lookupUser(w, op.str("user"))
+		if err != nil {
+			return Obs{"error": err.Error()}
+		}
+		udb, err := w.mgr.GetUserDB(uid)
+		if err != nil {
+			return Obs{"error": err.Error()}
+		}
+		mbx, err := db.GetMailboxByNamePerUser(udb, uid, op.str("mailbox"))
+		if err != nil {
+			return Obs{"error": err.Error()}
+		}
+		rs := []interface{}{}
+		for _, set := range op.strs("sets") {
+			rs = append(rs, func() (r interface{}) {
+				defer func() {
+					if e := recover(); e != nil {
+						r = map[string]interface{}{"panic": fmt.Sprint(e)}
+					}
+				}()
+				t0 := time.Now()
+				var out []int
+				if op.boolean("uid") {
+					out = utils.ParseUIDSequenceSetWithDB(set, mbx, udb)
+				} else {
+					out = utils.ParseSequenceSetWithDB(set, mbx, udb)
+				}
+				return map[string]interface{}{"n": len(out), "cap": cap(out), "ms": time.Since(t0).Milliseconds()}
+			}())
+		}
+		return Obs{"rs": rs}
+	})
+	// mem_peak: peak resident set (VmHWM, KiB) of the driver process and the bytes the Go runtime
+	// obtained from the OS; a handler that reserves gigabytes shows up here even if it never touches them
+	register("mem_peak", func(w *World, op Op) Obs {
+		var ms runtime.MemStats
+		runtime.ReadMemStats(&ms)
+		hwm := 0
+		if b, err := os.ReadFile("/proc/self/status"); err == nil {
+			for _, l := range strings.Split(string(b), "\n") {
+				if strings.HasPrefix(l, "VmHWM:") {
+					f := strings.Fields(l)
+					if len(f) >= 2 {
+						hwm, _ = strconv.Atoi(f[1])
+					}
+				}
+			}
+		}
+		return Obs{"hwm_kb": hwm, "go_sys_mb": int(ms.Sys >> 20), "heap_sys_mb": int(ms.HeapSys >> 20)}
 	})
 	// sasl_open: {"op":"sasl_open","conn":"s1"} (the SASL protocol has no greeting)
 	register("sasl_open", func(w *World, op Op) Obs {
